@@ -1,6 +1,8 @@
 import Driver.Encode
+import Driver.Tree
 
 def main (args : List String) : IO UInt32 := do
   match args with
   | ["encode"] => Driver.Encode.run; return 0
+  | ["tree"] => Driver.Tree.run; return 0
   | _ => IO.eprintln "usage: qdriver <module>"; return 2
